@@ -29,7 +29,17 @@ import (
 
 // C23 — V1 to V2 migration preserves exactly the loadable data.
 
-const c23Depth = 2
+const (
+	c23Depth       = 2
+	c23WitnessPath = "datapath-is-swamp-folder-with-trailing-separator"
+	c23WitnessMeta = "meta-read-error-empty-name"
+)
+
+var (
+	c23Spells = []string{"trailing-slash", "double-slash", "dot-segment", "trailing-dot", "dotdot-segment", "relative", "relative-slash", "relative-dot",
+		"symlink", "symlink-slash"}
+	c23MetaReadFaults = []string{"meta-garbage", "meta-truncated", "meta-is-directory", "meta-dangling-symlink"}
+)
 
 // ValSpec describes the content of a treasure.
 type ValSpec struct {
@@ -74,7 +84,7 @@ type C23Swamp struct {
 	Batches  []C23Batch `json:"batches"`
 	// Fault applied to the finished legacy folder before migrating:
 	//  "" | corrupt-chunk-garbage | corrupt-chunk-empty | corrupt-chunk-truncated-stream | chunk-is-directory |
-	//  chunk-dangling-symlink | dir-at-hyd-path
+	//  chunk-dangling-symlink | dir-at-hyd-path | meta-garbage | meta-truncated | meta-is-directory | meta-dangling-symlink | meta-missing
 	Fault     string `json:"fault,omitempty"`
 	FaultPick int    `json:"fault_pick,omitempty"`
 }
@@ -87,6 +97,52 @@ type C23Scenario struct {
 	Parallel  int        `json:"parallel"`
 	StopOnErr bool       `json:"stop_on_error,omitempty"`
 	Rerun     bool       `json:"rerun,omitempty"` // run the same migration a second time
+	// How Config.DataPath is spelled and what it points at.
+	//  Spell:  "" clean absolute | trailing-slash | double-slash | dot-segment | trailing-dot | dotdot-segment |
+	//          relative | relative-slash | relative-dot (cwd = the directory itself) | symlink | symlink-slash
+	//  Target: "" data root | island (the island directory of swamp TargetPick) | swamp (the legacy folder of swamp TargetPick itself)
+	Spell      string `json:"spell,omitempty"`
+	Target     string `json:"target,omitempty"`
+	TargetPick int    `json:"target_pick,omitempty"`
+}
+
+// c23SpellsUnsafeForSwampTarget are the spellings for which the migrator, given
+// the legacy folder itself as DataPath, derives "<spelling>.hyd" INSIDE the folder.
+var c23SpellsUnsafeForSwampTarget = map[string]bool{"trailing-slash": true, "trailing-dot": true, "relative-slash": true, "relative-dot": true}
+
+// spellPath returns the DataPath string for physical directory target and the
+// directory the process must chdir to first ("" = none).
+func spellPath(base, target, spell string) (path, cwd string) {
+	dir, last := filepath.Dir(target), filepath.Base(target)
+	switch spell {
+	case "trailing-slash":
+		return target + "/", ""
+	case "double-slash":
+		return dir + "//" + last, ""
+	case "dot-segment":
+		return dir + "/./" + last, ""
+	case "trailing-dot":
+		return target + "/.", ""
+	case "dotdot-segment":
+		return target + "/../" + last, ""
+	case "relative":
+		return "./" + last, dir
+	case "relative-slash":
+		return last + "/", dir
+	case "relative-dot":
+		return ".", target
+	case "symlink", "symlink-slash":
+		link := filepath.Join(base, "datalink")
+		os.Remove(link)
+		if os.Symlink(target, link) != nil {
+			return target, ""
+		}
+		if spell == "symlink-slash" {
+			return link + "/", ""
+		}
+		return link, ""
+	}
+	return target, ""
 }
 
 func c23Key(i int) string { return fmt.Sprintf("k%03d", i) }
@@ -575,6 +631,25 @@ func runC23(s C23Scenario) pbt.Outcome {
 		case "dir-at-hyd-path":
 			os.MkdirAll(b.hyd, 0o755)
 			classes["fault:dir-at-hyd-path"] = true
+		case "meta-garbage", "meta-truncated", "meta-is-directory", "meta-dangling-symlink", "meta-missing":
+			mp := filepath.Join(folder, metadata.MetaFile)
+			raw, _ := os.ReadFile(mp)
+			switch sw.Fault {
+			case "meta-garbage":
+				os.WriteFile(mp, bytes.Repeat([]byte{0xff, 0x00, 0x7f}, 20), 0o644)
+			case "meta-truncated":
+				os.WriteFile(mp, raw[:len(raw)/3], 0o644)
+			case "meta-is-directory":
+				os.Remove(mp)
+				os.Mkdir(mp, 0o755)
+			case "meta-dangling-symlink":
+				os.Remove(mp)
+				os.Symlink(filepath.Join(base, "does-not-exist"), mp)
+			case "meta-missing":
+				os.Remove(mp)
+			}
+			b.mayErr = true
+			classes["fault:"+sw.Fault] = true
 		}
 		if err := copyTree(folder, b.copyDir); err != nil {
 			return pbt.Outcome{Skip: true}
@@ -598,13 +673,57 @@ func runC23(s C23Scenario) pbt.Outcome {
 		return pbt.Outcome{Skip: true}
 	}
 
-	cfg := migrator.Config{DataPath: root, DryRun: s.DryRun, Verify: s.Verify, DeleteOld: s.DeleteOld, Parallel: s.Parallel, StopOnError: s.StopOnErr}
+	// what DataPath points at, and how it is spelled
+	target := root
+	pick := built[s.TargetPick%len(built)]
+	switch s.Target {
+	case "island":
+		target = filepath.Join(root, fmt.Sprint(pick.sw.Island))
+	case "swamp":
+		target = pick.folder
+	}
+	spell := s.Spell
+	if s.Target == "swamp" && strings.HasPrefix(spell, "symlink") {
+		spell = ""
+	}
+	inScope := map[*c23Built]bool{}
+	for _, b := range built {
+		if b.folder == target || strings.HasPrefix(b.folder, target+string(filepath.Separator)) {
+			inScope[b] = true
+		}
+	}
+	dataPath, cwd := spellPath(base, target, spell)
+	if spell != "" {
+		classes["datapath-spelling:"+spell] = true
+	}
+	if s.Target != "" {
+		classes["datapath-target:"+s.Target] = true
+	}
+	if cwd != "" {
+		orig, err := os.Getwd()
+		if err != nil || os.Chdir(cwd) != nil {
+			return pbt.Outcome{Skip: true}
+		}
+		defer os.Chdir(orig)
+	}
+	resolve := func(p string) string {
+		if a, err := filepath.Abs(p); err == nil {
+			p = a
+		}
+		if r, err := filepath.EvalSymlinks(p); err == nil {
+			p = r
+		}
+		return p
+	}
+
+	cfg := migrator.Config{DataPath: dataPath, DryRun: s.DryRun, Verify: s.Verify, DeleteOld: s.DeleteOld, Parallel: s.Parallel, StopOnError: s.StopOnErr}
 	runs := 1
 	if s.Rerun && !s.DeleteOld {
 		runs = 2
 		classes["rerun"] = true
 	}
 	var res *migrator.Result
+	failed := map[string]string{}
 	for r := 0; r < runs; r++ {
 		m, err := migrator.New(cfg)
 		if err != nil {
@@ -622,21 +741,42 @@ func runC23(s C23Scenario) pbt.Outcome {
 			return pbt.Failf("migrator-error", "migrator.Run: %v", rerr)
 		}
 	}
-	failed := map[string]string{}
 	for _, f := range res.FailedSwamps {
-		failed[f.Path] = f.Phase + ": " + f.Error
+		// reported paths are spelled like DataPath; map them to the physical folder
+		failed[resolve(strings.TrimSuffix(f.Path, "/."))] = f.Phase + ": " + f.Error
 	}
-	if int(res.TotalSwamps) != len(built) {
-		return pbt.Failf("discovery", "migrator found %d V1 swamps, %d legacy folders exist", res.TotalSwamps, len(built))
+	if cwd != "" {
+		os.Chdir(filepath.Dir(base)) // absolute paths from here on
+	}
+	if int(res.TotalSwamps) != len(inScope) {
+		if spell == "symlink" && res.TotalSwamps == 0 {
+			// the walk does not follow a symlinked root: nothing is migrated, nothing may change
+			inScope = map[*c23Built]bool{}
+			classes["symlinked-root-not-followed"] = true
+		} else {
+			return pbt.Failf("discovery", "migrator found %d V1 swamps under DataPath %q, %d legacy folders exist there", res.TotalSwamps, dataPath, len(inScope))
+		}
 	}
 
 	nonTrivial := false
 	for _, b := range built {
-		why, isFailed := failed[b.folder]
+		why, isFailed := failed[resolve(b.folder)]
 		after := snapshot(b.folder)
+		if !inScope[b] {
+			// not below DataPath: must be untouched
+			if d := diffSnapshots(b.before, after); d != "" {
+				return pbt.Failf("legacy-damaged", "swamp %s lies outside DataPath %q but its legacy folder changed: %s", shortStr(b.name), dataPath, d)
+			}
+			if _, err := os.Lstat(b.hyd); err == nil && b.sw.Fault != "dir-at-hyd-path" {
+				return pbt.Failf("partial-hyd", "swamp %s lies outside DataPath %q but a .hyd appeared", shortStr(b.name), dataPath)
+			}
+			classes["swamp-outside-datapath-untouched"] = true
+			continue
+		}
 		_, folderErr := os.Stat(b.folder)
 		hydInfo, hydErr := os.Lstat(b.hyd)
-		tag := fmt.Sprintf("swamp %s (%d chunk files, fault %q, dryrun=%v verify=%v deleteold=%v parallel=%d)", shortStr(b.name), b.chunks, b.sw.Fault, s.DryRun, s.Verify, s.DeleteOld, s.Parallel)
+		tag := fmt.Sprintf("swamp %s (%d chunk files, fault %q, DataPath %q [%s/%s], dryrun=%v verify=%v deleteold=%v parallel=%d)", shortStr(b.name), b.chunks, b.sw.Fault,
+			dataPath, s.Target, spell, s.DryRun, s.Verify, s.DeleteOld, s.Parallel)
 
 		if b.chunks >= 2 && b.cnt.mods >= 1 && b.cnt.dels+b.cnt.sdels >= 1 {
 			nonTrivial = true
@@ -742,8 +882,11 @@ func runC23(s C23Scenario) pbt.Outcome {
 			}
 		}
 		nm, err := v2.ReadSwampName(b.hyd)
-		if err != nil || nm != b.name {
-			return pbt.Failf("name", "%s: ReadSwampName of the migrated file = %s, %v", tag, shortStr(nm), err)
+		if err == nil && nm == "" && b.sw.Fault == "meta-missing" {
+			// the legacy folder held no name at all: there is nothing to preserve
+			classes["no-meta-file-nameless-hyd"] = true
+		} else if err != nil || nm != b.name {
+			return pbt.Failf("name", "%s: the migration is reported successful but ReadSwampName of the migrated file = %s, %v", tag, shortStr(nm), err)
 		}
 		classes["migrated-and-compared"] = true
 	}
@@ -854,8 +997,12 @@ func genC23Swamp(t *rapid.T, label string, faults bool) C23Swamp {
 		sw.Batches = append(sw.Batches, batch)
 	}
 	if faults && rapid.IntRange(0, 2).Draw(t, label+"hasfault") == 0 {
-		sw.Fault = rapid.SampledFrom([]string{"corrupt-chunk-garbage", "corrupt-chunk-empty", "corrupt-chunk-truncated-stream", "chunk-is-directory",
-			"chunk-dangling-symlink", "dir-at-hyd-path", "dir-at-hyd-path"}).Draw(t, label+"fault")
+		kinds := []string{"corrupt-chunk-garbage", "corrupt-chunk-empty", "corrupt-chunk-truncated-stream", "chunk-is-directory",
+			"chunk-dangling-symlink", "dir-at-hyd-path", "dir-at-hyd-path", "meta-missing"}
+		if !pbt.Open("C23", c23WitnessMeta) {
+			kinds = append(kinds, c23MetaReadFaults...)
+		}
+		sw.Fault = rapid.SampledFrom(kinds).Draw(t, label+"fault")
 		sw.FaultPick = rapid.IntRange(0, 30).Draw(t, label+"faultpick")
 	}
 	return sw
@@ -875,6 +1022,14 @@ func genC23(faults bool) func(t *rapid.T) C23Scenario {
 		for i := 0; i < n; i++ {
 			s.Swamps = append(s.Swamps, genC23Swamp(t, fmt.Sprintf("s%d", i), faults))
 		}
+		if rapid.IntRange(0, 1).Draw(t, "respell") == 0 {
+			s.Spell = rapid.SampledFrom(c23Spells).Draw(t, "spell")
+		}
+		s.Target = rapid.SampledFrom([]string{"", "", "", "island", "swamp", "swamp"}).Draw(t, "target")
+		s.TargetPick = rapid.IntRange(0, 3).Draw(t, "targetpick")
+		if s.Target == "swamp" && c23SpellsUnsafeForSwampTarget[s.Spell] && pbt.Open("C23", c23WitnessPath) {
+			s.Spell = rapid.SampledFrom([]string{"", "double-slash", "dot-segment", "dotdot-segment", "relative"}).Draw(t, "safespell")
+		}
 		return s
 	}
 }
@@ -882,11 +1037,14 @@ func genC23(faults bool) func(t *rapid.T) C23Scenario {
 const c23Rule = "data roots with 1-4 legacy swamp folders produced by the real V1 chronicler (chronicler.New + filesystem.New + metadata.New, driven like " +
 	"the swamp: file-pointer callback, modified treasures carry their chunk file) from 1-6 write batches of new / modify-in-place / real delete / " +
 	"shadow delete / duplicate-key ops with optional close+reload between batches; max chunk size 64B..64KiB; all 15 content kinds incl. zero " +
-	"values and metadata; then migrator.Run with DryRun / Verify / DeleteOld / Parallel 1-8 / optional second run; differential oracle: V1.Load on a " +
+	"values and metadata; then migrator.Run with DryRun / Verify / DeleteOld / Parallel 1-8 / optional second run; Config.DataPath points at the data root, an island directory or one legacy folder and is spelled clean, with trailing '/', '//', '/./', trailing '/.', 'x/../x', relative to a chdir'ed cwd ('./x', 'x/', '.'), or through a symlink (with and without trailing '/'); differential oracle: V1.Load on a " +
 	"copy of the folder vs V2 chronicler Load of the migrated file compared through all treasure getters, ReadSwampName == name in the meta file, " +
 	"legacy folder byte-identical unless DeleteOld after success; non-trivial = a swamp with >=2 chunk files, >=1 in-place modification and >=1 delete"
 
 func TestC23Main(t *testing.T) {
+	if pbt.Open("C23", c23WitnessPath) {
+		pbt.Excluded("C23", "main", "DataPath = a legacy folder itself spelled with a trailing separator, '/.' or as '.' (open finding "+c23WitnessPath+")")
+	}
 	pbt.Main(t, pbt.Spec[C23Scenario]{
 		ID: "C23", Facet: "main", Rule: c23Rule,
 		Quick: 1200, Thorough: 40000,
@@ -895,6 +1053,12 @@ func TestC23Main(t *testing.T) {
 }
 
 func TestC23Faults(t *testing.T) {
+	if pbt.Open("C23", c23WitnessMeta) {
+		pbt.Excluded("C23", "faults", "undecodable / unreadable legacy meta file (open finding "+c23WitnessMeta+")")
+	}
+	if pbt.Open("C23", c23WitnessPath) {
+		pbt.Excluded("C23", "faults", "DataPath = a legacy folder itself spelled with a trailing separator (open finding "+c23WitnessPath+")")
+	}
 	pbt.Main(t, pbt.Spec[C23Scenario]{
 		ID: "C23", Facet: "faults",
 		Rule: "main generator plus fault cases that need no instrumentation: a V1 chunk file replaced by garbage / an empty file / a truncated " +
@@ -904,4 +1068,36 @@ func TestC23Faults(t *testing.T) {
 		Quick: 500, Thorough: 12000,
 		Gen: genC23(true), Run: runC23,
 	})
+}
+
+// --- witnesses of open findings -------------------------------------------
+
+func TestC23WitnessDataPath(t *testing.T) {
+	gen := func(t *rapid.T) C23Scenario {
+		s := genC23(false)(t)
+		s.DryRun = false
+		s.Target = "swamp"
+		s.Spell = rapid.SampledFrom([]string{"trailing-slash", "trailing-dot", "relative-slash", "relative-dot"}).Draw(t, "wspell")
+		return s
+	}
+	pbt.Witness(t, pbt.Spec[C23Scenario]{
+		ID: "C23", Facet: "witness-datapath",
+		Rule:  "main generator with Config.DataPath pointing at one legacy folder itself, spelled with a trailing '/' or '/.', or as '.' / 'name/' relative to the cwd",
+		Quick: 40, Thorough: 400, Gen: gen, Run: runC23,
+	}, c23WitnessPath, "no-hyd", "legacy-damaged")
+}
+
+func TestC23WitnessMetaReadError(t *testing.T) {
+	gen := func(t *rapid.T) C23Scenario {
+		s := genC23(false)(t)
+		s.DryRun = false
+		s.Target, s.Spell = "", ""
+		s.Swamps[0].Fault = rapid.SampledFrom(c23MetaReadFaults).Draw(t, "wfault")
+		return s
+	}
+	pbt.Witness(t, pbt.Spec[C23Scenario]{
+		ID: "C23", Facet: "witness-meta-read-error",
+		Rule:  "main generator with the meta file of the first legacy folder made undecodable / unreadable (garbage, truncated, a directory, a dangling symlink)",
+		Quick: 40, Thorough: 400, Gen: gen, Run: runC23,
+	}, c23WitnessMeta, "name")
 }
